@@ -182,13 +182,13 @@ where
 
 // ---- colours with integer components: the bounds are 0 and the largest value of the type, every value is inside them
 macro_rules! int_bounds {
-    ($fname:ident, $U:ty, $C:ty, $n:expr, |$v:ident| $make:expr, |$c:ident| $comps:expr, [$($min:ident / $max:ident),*]) => {
+    ($fname:ident, $U:ty, $C:ty, $n:expr, |$v:ident| $make:expr, |$c:ident| $comps:expr, [$($min:expr => $max:expr),*]) => {
         fn $fname(name: &str, input: &[u64], alpha: bool) -> Value {
             let $v: Vec<$U> = input.iter().map(|&x| x as $U).collect();
             let a: $C = $make;
             let get = |$c: &$C| -> Vec<$U> { $comps };
-            let lo: Vec<Value> = vec![$(<$C>::$min().ex()),*];
-            let hi: Vec<Value> = vec![$(<$C>::$max().ex()),*];
+            let lo: Vec<Value> = vec![$(($min).ex()),*];
+            let hi: Vec<Value> = vec![$(($max).ex()),*];
             let mut e = json!({"ev": "bounds", "t": stringify!($U), "node": name, "alpha": alpha as u8, "in": ex_arr(&get(&a)), "lo": lo, "hi": hi});
             let r = catch(|| {
                 let c = a.clamp();
@@ -209,11 +209,11 @@ macro_rules! int_bounds {
         }
     };
 }
-int_bounds!(ib_srgb_u8, u8, Srgb<u8>, 3, |v| Srgb::new(v[0], v[1], v[2]), |c| vec![c.red, c.green, c.blue], [min_red / max_red, min_green / max_green, min_blue / max_blue]);
-int_bounds!(ib_srgb_u16, u16, Srgb<u16>, 3, |v| Srgb::new(v[0], v[1], v[2]), |c| vec![c.red, c.green, c.blue], [min_red / max_red, min_green / max_green, min_blue / max_blue]);
-int_bounds!(ib_linsrgb_u32, u32, LinSrgb<u32>, 3, |v| LinSrgb::new(v[0], v[1], v[2]), |c| vec![c.red, c.green, c.blue], [min_red / max_red, min_green / max_green, min_blue / max_blue]);
-int_bounds!(ib_luma_u8, u8, SrgbLuma<u8>, 1, |v| SrgbLuma::new(v[0]), |c| vec![c.luma], [min_luma / max_luma]);
-int_bounds!(ib_luma_u16, u16, LinLuma<D65, u16>, 1, |v| LinLuma::new(v[0]), |c| vec![c.luma], [min_luma / max_luma]);
+int_bounds!(ib_srgb_u8, u8, Srgb<u8>, 3, |v| Srgb::new(v[0], v[1], v[2]), |c| vec![c.red, c.green, c.blue], [<Srgb<u8>>::min_red() => <Srgb<u8>>::max_red(), <Srgb<u8>>::min_green() => <Srgb<u8>>::max_green(), <Srgb<u8>>::min_blue() => <Srgb<u8>>::max_blue()]);
+int_bounds!(ib_srgb_u16, u16, Srgb<u16>, 3, |v| Srgb::new(v[0], v[1], v[2]), |c| vec![c.red, c.green, c.blue], [<Srgb<u16>>::min_red() => <Srgb<u16>>::max_red(), <Srgb<u16>>::min_green() => <Srgb<u16>>::max_green(), <Srgb<u16>>::min_blue() => <Srgb<u16>>::max_blue()]);
+int_bounds!(ib_linsrgb_u32, u32, LinSrgb<u32>, 3, |v| LinSrgb::new(v[0], v[1], v[2]), |c| vec![c.red, c.green, c.blue], [<LinSrgb<u32>>::min_red() => <LinSrgb<u32>>::max_red(), <LinSrgb<u32>>::min_green() => <LinSrgb<u32>>::max_green(), <LinSrgb<u32>>::min_blue() => <LinSrgb<u32>>::max_blue()]);
+int_bounds!(ib_luma_u8, u8, SrgbLuma<u8>, 1, |v| SrgbLuma::new(v[0]), |c| vec![c.luma], [<SrgbLuma<u8>>::min_luma() => <SrgbLuma<u8>>::max_luma()]);
+int_bounds!(ib_luma_u16, u16, LinLuma<D65, u16>, 1, |v| LinLuma::new(v[0]), |c| vec![c.luma], [<LinLuma<D65, u16>>::min_luma() => <LinLuma<D65, u16>>::max_luma()]);
 // ---- colour types outside the XYZ conversion group (CAM16-UCS, CAM16 and its partial forms): bounds contract only
 macro_rules! extra_bounds {
     ($fname:ident, $C:ty, |$v:ident| $make:expr, |$c:ident| $comps:expr, [$($b:expr),*]) => {
@@ -269,7 +269,18 @@ fn extra_bounds_op(name: &str, input: &[T]) -> Value {
     }
 }
 
-pub const INT_NODES: [&str; 5] = ["srgb_u8", "srgb_u16", "linsrgb_u32", "srgbluma_u8", "linluma_u16"];
+type SrgbaU8 = Alpha<Srgb<u8>, u8>;
+type SrgbaU16 = Alpha<Srgb<u16>, u16>;
+type LumaaU8 = Alpha<SrgbLuma<u8>, u8>;
+int_bounds!(ib_srgba_u8, u8, SrgbaU8, 4, |v| Alpha { color: Srgb::new(v[0], v[1], v[2]), alpha: v[3] }, |c| vec![c.color.red, c.color.green, c.color.blue, c.alpha],
+            [<Srgb<u8>>::min_red() => <Srgb<u8>>::max_red(), <Srgb<u8>>::min_green() => <Srgb<u8>>::max_green(), <Srgb<u8>>::min_blue() => <Srgb<u8>>::max_blue(),
+             <SrgbaU8>::min_alpha() => <SrgbaU8>::max_alpha()]);
+int_bounds!(ib_srgba_u16, u16, SrgbaU16, 4, |v| Alpha { color: Srgb::new(v[0], v[1], v[2]), alpha: v[3] }, |c| vec![c.color.red, c.color.green, c.color.blue, c.alpha],
+            [<Srgb<u16>>::min_red() => <Srgb<u16>>::max_red(), <Srgb<u16>>::min_green() => <Srgb<u16>>::max_green(), <Srgb<u16>>::min_blue() => <Srgb<u16>>::max_blue(),
+             <SrgbaU16>::min_alpha() => <SrgbaU16>::max_alpha()]);
+int_bounds!(ib_lumaa_u8, u8, LumaaU8, 2, |v| Alpha { color: SrgbLuma::new(v[0]), alpha: v[1] }, |c| vec![c.color.luma, c.alpha],
+            [<SrgbLuma<u8>>::min_luma() => <SrgbLuma<u8>>::max_luma(), <LumaaU8>::min_alpha() => <LumaaU8>::max_alpha()]);
+pub const INT_NODES: [&str; 8] = ["srgb_u8", "srgb_u16", "linsrgb_u32", "srgbluma_u8", "linluma_u16", "srgba_u8", "srgba_u16", "srgblumaa_u8"];
 fn int_bounds_op(name: &str, input: &[u64]) -> Value {
     match name {
         "srgb_u8" => ib_srgb_u8(name, input, false),
@@ -277,6 +288,9 @@ fn int_bounds_op(name: &str, input: &[u64]) -> Value {
         "linsrgb_u32" => ib_linsrgb_u32(name, input, false),
         "srgbluma_u8" => ib_luma_u8(name, input, false),
         "linluma_u16" => ib_luma_u16(name, input, false),
+        "srgba_u8" => ib_srgba_u8(name, input, false),
+        "srgba_u16" => ib_srgba_u16(name, input, false),
+        "srgblumaa_u8" => ib_lumaa_u8(name, input, false),
         _ => { eprintln!("unknown integer node {}", name); std::process::exit(3) }
     }
 }
